@@ -154,8 +154,40 @@ def correspondence(run):
     bad = run.coq_mismatches(sc.HEADER, "case", "case_ok", cases, shard=400)
     for i in bad[:8]:
         report_mismatch(run, *meta[i])
+    limit_block(run)
     if len(bad) > 8:
         run.note("%d further disagreeing cases not reported individually" % (len(bad) - 8))
+
+
+def limit_block(run):
+    """yaql.limitIterators = n: the Limit stage of the model against the real limiter (values and CollectionTooLarge)"""
+    cases, meta = [], []
+    for _ in range(run.n(500, 6000)):
+        n = run.rng.randrange(2, 7)
+        vals = tuple(run.rng.choice(sc.INTS) for _ in range(run.rng.randrange(0, 9)))
+        src = (run.rng.choice(["tuple", "iter"]), vals)
+        stages = sc.gen_lim_stages(run.rng, n)
+        text0, _ = sc.source_setup(src, False)
+        text = sc.pipeline_text(text0, stages)
+        o = sc.evaluate(text, sc.source_setup(src, False)[1], timeout=20, eng=sc.engine_with_limit(n))
+        run.case(("limit", n, src, sc.stages_json(stages)), nontrivial=len(vals) > 0)
+        run.count("limit:n=%d" % n)
+        run.count("limit-result:" + (o[1] if o[0] == "err" else o[0]))
+        oo = o if o[0] != "err" else ("err", o[1])
+        cases.append("{| l_lim := %s; l_src := %s; l_stages := %s; l_obs := %s |}" % (
+            sc.gal.nat(n), sc.source_gal(src), "[" + "; ".join(sc.stage_gal(x) for x in stages) + "]", sc.obs_gal(oo)))
+        meta.append((n, src, stages, text, o))
+    bad = run.coq_mismatches(sc.HEADER, "lcase", "lcase_ok", cases, shard=400)
+    for i in bad[:4]:
+        n, src, stages, text, o = meta[i]
+        try:
+            model = run.coq_eval(sc.HEADER, "snd (eval_case_lim %s %s %s)" % (sc.gal.nat(n), sc.source_gal(src), "[" + "; ".join(sc.stage_gal(x) for x in stages) + "]"))
+        except Exception as e:       # pragma: no cover
+            model = repr(e)
+        run.fail("violation", "yaql.limitIterators=%d: %s: the implementation's result differs from the reference model" % (n, "/".join(x[0] for x in stages)),
+                 {"kind": "limit", "limit": n, "yaql": text, "src": [src[0], sc.tojson(src[1])], "stages": sc.stages_json(stages),
+                  "observed": repr(o), "model": model, "theorems": ["C14_limit"],
+                  "requires": "values, or CollectionTooLarge exactly when a limited parameter / the result exceeds the limit"})
 
 
 def model_result(run, src, stages):
@@ -511,6 +543,14 @@ def classify(failure, known):
 def replay(run, data):
     d = data["data"]
     kind = d.get("kind", "pipeline")
+    if kind == "limit":
+        n, src, stages = d["limit"], src_from_json(d["src"]), sc.stages_from_json(d["stages"])
+        text0, data = sc.source_setup(src, False)
+        o = sc.evaluate(sc.pipeline_text(text0, stages), data, timeout=20, eng=sc.engine_with_limit(n))
+        oo = o if o[0] != "err" else ("err", o[1])
+        term = "{| l_lim := %s; l_src := %s; l_stages := %s; l_obs := %s |}" % (
+            sc.gal.nat(n), sc.source_gal(src), "[" + "; ".join(sc.stage_gal(x) for x in stages) + "]", sc.obs_gal(oo))
+        return not run.coq_mismatches(sc.HEADER, "lcase", "lcase_ok", [term])
     if kind == "pipeline":
         src, stages = src_from_json(d["src"]), sc.stages_from_json(d["stages"])
         _, o = observe(src, stages, d.get("literal", False), None)
